@@ -29,6 +29,10 @@ CASES = {
     'struct-members:read-struct|write-member': ('mem', [[['read', 'pid']], [['write', 'pid_p', 5.0]]]),
     'struct-members:write-struct|read-member': ('mem', [[['write', 'pid', {'p': 3.0, 'i': 4.0}]], [['read', 'pid_i']]]),
     'struct-rw:read|write-member': ('rw', [[['read', 'pid']], [['write', 'pid_i', 6.0]]]),
+    # a parameter and its limit written by two threads (module code / poll thread and a request thread)
+    'limits:write-a|write-a_max': ('lim', [[['write', 'a', 5.0]], [['write', 'a_max', 3.0]]]),
+    'limits:write-a|assign-a_max': ('lim', [[['write', 'a', 5.0]], [['assign', 'a_max', 3.0]]]),
+    'limits:write-a|write-a_limits': ('lim', [[['write', 'b', 5.0]], [['write', 'b_limits', (0.0, 3.0)]]]),
     # float / enum pair
     'floatenum:assign-idx|assign-idx': ('fe', [[['assign', 'rng_idx', 1]], [['assign', 'rng_idx', 2]]]),
     'floatenum:write-float|assign-idx': ('fe', [[['write', 'rng', 0.9]], [['assign', 'rng_idx', 1]]]),
@@ -91,7 +95,33 @@ def classes():
 
         def read_rng_idx(self):
             return HW['idx']
-    _cls.update(rw=RW, mem=Mem, fe=FE)
+    from frappy.params import Limit
+
+    class Lim(Readable):
+        a = Parameter('limited', FloatRange(0, 100), readonly=False, default=1.0)
+        a_max = Limit()
+        b = Parameter('limited by pair', FloatRange(0, 100), readonly=False, default=1.0)
+        b_limits = Limit()
+
+        def read_value(self):
+            return 0.0
+
+        def write_a(self, value):
+            from vf.engines import schedx
+            sc = schedx.active()
+            if sc is not None:
+                sc.point('yield', 'hardware')
+            HW.setdefault('writes', []).append(('a', value, self.a_max))
+            return value
+
+        def write_b(self, value):
+            from vf.engines import schedx
+            sc = schedx.active()
+            if sc is not None:
+                sc.point('yield', 'hardware')
+            HW.setdefault('writes', []).append(('b', value, self.b_limits[1]))
+            return value
+    _cls.update(rw=RW, mem=Mem, fe=FE, lim=Lim)
     return _cls
 
 
@@ -110,7 +140,10 @@ def execute(case, prefix):
     errors = []
 
     def body():
-        node = nodes.Node({'m': {'cls': classes()[kind]}})
+        cfg = {'cls': classes()[kind]}
+        if kind == 'lim':
+            cfg.update(a_max={'value': 10.0}, b_limits={'value': (0.0, 10.0)})
+        node = nodes.Node({'m': cfg})
         out['node'] = node
         mod = node.secnode.modules['m']
         obs = N.ObserverConn(sched, 'c3')
@@ -137,7 +170,10 @@ def execute(case, prefix):
             t.start()
         for t in ts:
             t.join()
-        if kind == 'fe':
+        if kind == 'lim':
+            out['final'] = {'a': mod.a, 'a_max': mod.a_max, 'b': mod.b}
+            out['writes'] = list(HW.get('writes', []))
+        elif kind == 'fe':
             out['final'] = {'rng': mod.rng, 'rng_idx': int(mod.rng_idx)}
         else:
             out['final'] = {'pid': dict(mod.pid), 'pid_p': mod.pid_p, 'pid_i': mod.pid_i}
@@ -170,6 +206,15 @@ def judge(case, kind, x, out, errors):
     final = out['final']
     if out['errs']:
         return viol         # a parameter in error shows no value (calibration of C18)
+    if kind == 'lim':
+        for e, (op, exc) in enumerate(errors):
+            pass
+        viol = [v for v in viol if 'RangeError' not in v[1]]        # a write refused because the limit came first is fine
+        for pname, value, limit in out.get('writes', []):
+            if value > limit:
+                viol.append(('conc:limits:value-above-the-limit-in-force-reached-the-hardware' + cls,
+                             f'write_{pname}({value}) while the limit in force was {limit}; final {final}'))
+        return viol
     if kind == 'fe':
         if abs(final['rng'] - TABLE[final['rng_idx']]) > 1e-12:
             viol.append(('conc:floatenum:float-differs-from-value-of-index' + cls, f'final cache {final}'))
